@@ -97,7 +97,9 @@ class Solver:
             # This is herm flag take for granted that the liouvillian keep
             # hermiticity.  But we do not check user passed super operator for
             # anything other than dimensions.
-            'isherm': not (self.rhs.dims == state.dims) and state._isherm,
+            'isherm': (
+                not (self.rhs.dims == state.dims) and state._isherm
+            ) or None,
         }
         if state.isket:
             norm = state.norm()
